@@ -41,6 +41,9 @@ def entries(tier="quick"):
     add("Sigmoid", lambda: nl.Sigmoid(), [3])
     add("Sigmoid(learned T)", lambda: nl.Sigmoid(temperature=1.7, learn_temperature=True), [2])
     add("Logit", lambda: nl.Logit(), [3], dom="unit")
+    add("Sigmoid(temperature 2.5, image items)", lambda: nl.Sigmoid(temperature=2.5), [3, 2, 2])
+    add("Logit(temperature 0.4, image items)", lambda: nl.Logit(temperature=0.4), [2, 2, 3], dom="unit")
+    add("Sigmoid(temperature 0.6, vector items)", lambda: nl.Sigmoid(temperature=0.6), [4])
     add("CauchyCDF", lambda: nl.CauchyCDF(), [3])
     add("CauchyCDFInverse", lambda: nl.CauchyCDFInverse(), [3], dom="unit")
     # constructor arguments away from their defaults (whatever a constructor accepts must give a transform whose log-abs-det
